@@ -90,8 +90,23 @@ def valid_set(name, m, tier, nseeds=None, check_positions=None, kw=None, cap=Non
     kw = kw or {}
     nodes = {}
     for s, v in sv:
+        if kw:
+            # canonical form under these options (e.g. MEID keeps its check digit with strip_check_digit=False)
+            try:
+                cv = m.validate(s, **kw)
+                if isinstance(cv, str) and _accepts(m, cv, kw):
+                    nodes[cv] = 0
+                    continue
+            except Exception:
+                pass
         if _accepts(m, v, kw):
             nodes[v] = 0
+    if kw and not nodes:
+        # no seed is valid under these options (custom alphabet / table): repair the check position of the seeds
+        from . import synth
+        for s, v in sv:
+            for u in synth._repair(m, v, kw):
+                nodes[u] = 0
     stats = {'seeds': len(nodes), 'edges': 0, 'tried': 0}
     frontier = list(nodes)
     # slow validators (registry lookups of ~4 ms): bound the number of expanded nodes, and say so
